@@ -1,37 +1,123 @@
 """Claim texts for MANIFEST.json (one place; updated whenever a theorem lands)."""
 
-_K = ("Correspondence: the hand-written Lean model (one def per Rust fn) is executed by the native driver on every line the Rust harness "
-      "produces by calling the real crate built from /repo's working tree; constants are regenerated from src/constants/mod.rs each run.")
-_TB = ("Trusted: Lean 4.33 kernel (axioms propext, Classical.choice, Quot.sound only; no sorry/native_decide), tools/gen_lean.py (constant extraction), "
-       "the differential correspondence (strength = generators, printed in the evidence), Rust integer semantics modelled on unbounded Int, rustc/cargo.")
+_K = ("Tie to the code (checked on every run, not asserted): constants, guard literals and two source inventories are regenerated "
+      "from /repo/src into Lean; the hand-written model (one def per Rust fn) is executed by the native driver on every protocol line "
+      "the Rust harness produces by calling the real crate built from /repo's working tree, and the Spec oracles judge the "
+      "implementation's own answers. ")
+_TB = ("Trusted: Lean 4.33 kernel; axioms propext, Classical.choice, Quot.sound only (audited with #print axioms each run; no sorry, "
+       "native_decide, bv_decide; `decide +kernel` for finite tables); tools/gen_lean.py (literal extraction, fails closed on "
+       "src/constants/mod.rs); the differential correspondence, whose strength is that of the generators printed in the evidence; "
+       "Rust integer semantics modelled on unbounded Int (/,% as tdiv/tmod, checked_* as range tests); slices as List; "
+       "core::fmt padding and str::parse on digit strings modelled; 64-bit usize; rustc/cargo and catch_unwind.")
+
 
 def _c(text, technique, note=_TB):
     return {"text": text, "technique": technique, "note": note}
 
+
 CLAIMS = {
-    "C01": _c(_K + " gmtime family: the whole 400-year cycle at two seconds per day, both range ends, i64 extremes, random instants. Theorems pending; until then this is differential exploration against the model and the spec oracles.", "Lean model + exhaustive-cycle differential correspondence"),
-    "C02": _c(_K + " utcnew/utccmp families over year classes x months 0..13 x days x boundary times.", "Lean model + differential correspondence"),
-    "C03": _c(_K + " zone/lookup/dtfrom families on generated zones (0-40 transitions, leap tables, rules) at every transition -1/0/+1.", "Lean model + differential correspondence"),
-    "C04": _c(_K + " rule-only zones, lookups at start/end/New Year -1/0/+1 over year sets.", "Lean model + differential correspondence"),
-    "C05": _c(_K + " find family on generated zones with overlapping candidates.", "Lean model + differential correspondence"),
-    "C06": _c(_K + " find family; gap entries and order.", "Lean model + differential correspondence"),
-    "C07": _c(_K + " hostile TZif/TZ-string streams with a counting allocator, and every generator group re-run in the dev build (overflow-checks, debug-assertions); any PANIC/abort/allocation above 1024+16*len is a violation.", "hostile differential run in overflow-checked build + model totality"),
-    "C08": _c(_K + " all 894 vendored IANA files, files written by an independent writer from random zones (v1/v2/v3, shared designations, indicator vectors), and by-construction corruptions that must be rejected.", "Lean model + differential correspondence + writer round trip"),
-    "C09": _c(_K + " TZ strings through v2/v3 footers: bounded-exhaustive over a 16-letter grammar alphabet, token sequences, grammar-directed sentences and mutations.", "Lean model + bounded-exhaustive differential correspondence"),
-    "C10": _c("Four-way differential on the vendored tzdata 2025b snapshot (894 files): Rust implementation, Lean model, glibc (TZ=:/path, right/ with scale conversion) and CPython zoneinfo at every transition/leap record -1/0/+1, rule instants and random instants; search results against glibc's forward function. Lean cannot state anything about glibc or CPython; they are black-box oracles.", "model + reference-implementation differential"),
-    "C11": _c(_K + " rulenew family: all 1151x1151 day-notation pairs with breakpoint values of d, limits of the range tests.", "Lean model + exhaustive-pair differential correspondence"),
-    "C12": _c(_K + " probe zones [(T->1),(i64::MAX->0)] with generated leap tables (insertions and deletions, minimum spacing): lookups reveal toCount u >= T, the search reveals toUtc T.", "Lean model + differential correspondence"),
-    "C13": _c(_K + " zonenew family: valid zones and every single-defect perturbation, both constructors; lttnew over every byte at three positions.", "Lean model + differential correspondence"),
-    "C14": _c(_K + " every constructor of zoned date-times and every search entry.", "Lean model + differential correspondence"),
-    "C15": _c("Static: whole-source inventory (global state, interior mutability, ambient calls) regenerated into Lean each run and decided by `decide`; rustc checks Send+Sync for every public type in the harness build. Dynamic: a 16-thread runner regenerates the corpus concurrently and on shared zones; per-call answers must equal the sequential run, which is compared with the model. No theorem can quantify over Rust schedules: partial.", "source inventory decided in Lean + rustc auto-trait check + threaded differential"),
-    "C16": _c(_K + " utctn/dttn families at multiples of 1e9 +-1, range ends, i128 extremes.", "Lean model + differential correspondence"),
-    "C17": _c(_K + " findn family: every buffer length 0..k+2 with stale-filled buffers.", "Lean model + differential correspondence"),
-    "C18": _c(_K + " fmt family over boundary offsets and years.", "Lean model + differential correspondence"),
-    "C19": _c("The harness (client of the public API) is built against /repo with no features, `alloc` and `std`; each runs the same deterministic corpus; the three streams must be identical and the std stream equal to the Lean model's. A build failure in any configuration is a violation.", "translation validation across three feature builds"),
-    "C20": _c(_K + " resolve family with a recording virtual file system: all states of the candidate files x directory lists x TZ values.", "Lean model + differential correspondence"),
+    "C01": _c("Proved in Lean for ALL integers t: an accepted timestamp yields a real date, time in range, whose second count is t "
+              "(fields_correct), acceptance iff MIN ≤ t ≤ MAX else OutOfRange (accepted_iff, refused), the range ends are the first/last "
+              "second of years i32::MIN/MAX, uniqueness of the fields, weekday and day-of-year. " + _K +
+              "gmtime family: the whole 400-year cycle at two seconds per day (exhaustive for the quotient the property names), both range "
+              "ends, i64 extremes, random instants.",
+              "Lean 4 proof (unbounded) + exhaustive-cycle differential correspondence"),
+    "C02": _c("Proved: the day count equals the spec's day number for every year (both branches of the 1970 split, 32 December included); "
+              "the constructor's answer clause by clause (new_correct) and acceptance iff real date/time; Unix time = second count; second 60 = "
+              "next minute; both round trips; lexicographic order iff Unix-time order. " + _K +
+              "utcnew/utccmp families over year classes x months 0..13 x days 0..32 x boundary times.",
+              "Lean 4 proof (unbounded) + differential correspondence"),
+    "C03": _c("Proved for tables of any length: binary search correct on strictly increasing data and total; before the last transition the "
+              "type is that of the latest transition at or before the instant (filter-based spec), the first type before the first transition, "
+              "rule or NoAvailableLocalTimeType after the last; the local date-time is the C01 calendar of instant+offset. " + _K +
+              "zone/lookup/dtfrom/dtfromtn families on generated zones at every transition and leap record -1/0/+1 on both scales.",
+              "Lean 4 proof (induction, unbounded table) + differential correspondence"),
+    "C04": _c("Proved: the three day notations compute what they mean for every year (Mm.w.d against a scan of the month); the year guard; and "
+              "PARTIAL: for accepted interleaving rules that are tie-free the answer is DST exactly inside a period [start(y), following end) "
+              "with the matching half of the rule, and changes only at start/end instants. The full statement is false of the code "
+              "(known finding F1, proved counterexample). " + _K +
+              "rule-only zones, lookups at start/end/New Year -1/0/+1 over year sets incl. the year-guard ends.",
+              "Lean 4 proof (partial: TieFree) + differential correspondence + known finding"),
+    "C05": _c("Proved (PARTIAL: zones without a DST rule — table, table+fixed rule, fixed rule, single type; any offsets, leap seconds): every "
+              "valid result shows the searched local time under the forward lookup, no such instant of the i64 range is missing, valid results "
+              "strictly increase (no duplicates). With DST rules: correspondence + Spec oracle (validSet) only; false for known findings F1/F2 "
+              "(proved counterexample_F2). " + _K + "find family incl. junction zones (last table transition = a rule instant).",
+              "Lean 4 proof (partial) + spec-oracle differential + known findings"),
+    "C06": _c("Proved (same partial scope as C05): a reported gap is a real one with the transition instant on both clocks, every gap "
+              "containing the local time is reported, exactly once, all results ascending; unique/earliest/latest characterised. " + _K +
+              "find family; Spec oracle gapSet for rule zones.",
+              "Lean 4 proof (partial) + spec-oracle differential + known finding"),
+    "C07": _c("PARTIAL. Proved on the model: every modelled function is total; 13 obligations that the unchecked arithmetic / casts / indexes / "
+              "unreachable! arms / with_capacity requests of the modelled functions cannot fail for inputs of the argument types; and the "
+              "regenerated per-file inventory of such sites equals the one the obligations were written against (decide). Exercised, not "
+              "proved: core/alloc internals, stack, allocator. " + _K +
+              "hostile TZif/TZ-string streams under a counting allocator, and every generator group re-run in the dev build "
+              "(overflow-checks, debug-assertions): any PANIC/abort/allocation above 1024+16*len is a violation.",
+              "Lean 4 proof of site obligations + regenerated site inventory + overflow-checked hostile differential"),
+    "C08": _c("Proved: decoding what an independent writer wrote (any reserved bytes, shared/overlapping designation table, any isstd/isut "
+              "vectors, v1 from the 32-bit block, v2/v3 from the 64-bit block with an ARBITRARY well-sized 32-bit block in front, extensions iff "
+              "version 3) gives exactly TimeZone::new of the encoded parts; big-endian round trip; nine named rejections for arbitrary bytes; "
+              "accepted files are well-formed. " + _K +
+              "all 894 vendored IANA files, writer-generated files, by-construction corruptions that must be rejected.",
+              "Lean 4 proof (round trip + rejections) + differential correspondence"),
+    "C09": _c("Proved: the executable reference reader accepts exactly the declarative grammar (which is unambiguous), and the code's parser = "
+              "reference reader ∘ denotation ∘ the library's constructors; hence parse_complete and parse_sound; accepted strings are ASCII; footer "
+              "framing. " + _K +
+              "tzfooter family through v2/v3 footers: bounded-exhaustive over a 16-letter alphabet, token sequences, grammar-directed sentences, mutations.",
+              "Lean 4 proof (grammar = reader = parser) + bounded-exhaustive differential correspondence"),
+    "C10": _c("Four-way differential on the vendored tzdata 2025b (894 files): Rust implementation, Lean model (whose lookup/decoding is proved "
+              "against the spec in C03/C04/C08/C09/C12), glibc (TZ=:/path; right/ with scale conversion) and CPython zoneinfo, at every transition "
+              "and leap record -1/0/+1, rule instants, random instants; search results against glibc's forward function. Lean cannot state "
+              "anything about glibc or CPython: they are black-box oracles.",
+              "reference-implementation differential + proved model"),
+    "C11": _c(_K + "rulenew family: all 1151x1151 day-notation pairs with breakpoint values of d and the limits of the three range tests, judged by the "
+              "28-year form of the three weak-order clauses. Proved so far (not yet claimed as the deciding argument): the guards and error order, "
+              "the reduction of 'all years' to 28 consecutive years, the Julian x Julian case; the month-week-day tables are in progress.",
+              "exhaustive-pair differential correspondence + spec oracle (theorems partly done)"),
+    "C12": _c("Proved for every well-formed leap table: the backward conversion is the spec's toUtc; the Galois connection T ≤ toCount u ⟺ toUtc T ≤ u "
+              "(a transition takes effect exactly at the instant its count denotes; the search reports the instant the lookup switches); both "
+              "monotone; round trip off deleted seconds; insertion shares / deletion skips; the pre-fix function violates it (F3, fixed). " + _K +
+              "probe zones [(T→1),(i64::MAX→0)] with generated tables (insertions, deletions, minimum spacing) and the search.",
+              "Lean 4 proof (induction over the table) + differential correspondence"),
+    "C13": _c("Proved: the constructor accepts iff the zone is well-formed (each clause of the property), each error blames its clause, the "
+              "saturating arithmetic decides the mathematical conditions, local time types accept exactly offset ≠ i32::MIN and 3–7 characters "
+              "of [A-Za-z0-9+-]. Owned = borrowed: one function in model and source; the harness calls both. " + _K +
+              "zonenew family: valid zones and every single-defect perturbation incl. one-character designation changes.",
+              "Lean 4 proof + differential correspondence"),
+    "C14": _c("Proved: the invariant (fields are a real date/time whose second count is Unix time + offset) for every constructor, projection "
+              "and every search entry incl. gaps; exact answer of construction from fields; equality/ordering on (Unix time, ns). " + _K +
+              "dtnew/dtfromlocal/dttn/dtfromtn/dtcmp/dtfrom/find families incl. exact range ends for every kind of offset.",
+              "Lean 4 proof + differential correspondence"),
+    "C15": _c("PARTIAL. Static: whole-source inventory (statics, thread_local, unsafe, Cell/Atomic/Mutex/Once/Lazy/Rc/raw pointers, env, ambient "
+              "calls) regenerated into Lean each run and decided by `decide`; rustc decides Send+Sync for every public type in the harness build. "
+              "Dynamic: 16 threads regenerate the corpus concurrently and query shared zones; per-call answers must equal the sequential run, "
+              "which is compared with the stateless model. No theorem can quantify over Rust schedules.",
+              "source inventory decided in Lean + rustc auto-trait check + threaded differential"),
+    "C16": _c("Proved: the split is floor division by 1e9 with remainder in [0, 999999999], unique; recombination and both round trips; the total "
+              "fits i128; constructors from total nanoseconds equal those from the pair; ns ≥ 1e9 refused. " + _K +
+              "utctn/dttn/dtfromtn families at multiples of 1e9 ± 1, range ends, i128 extremes, negative totals around transitions.",
+              "Lean 4 proof + differential correspondence"),
+    "C17": _c("Proved for ANY buffer and ANY pushed sequence: final buffer = first min(n,k) results then the untouched tail, count = k, exhaustive iff "
+              "n ≥ k, accessors agree when exhaustive, both entry points run the same search. " + _K +
+              "findn family: every n in 0..k+2 with stale-filled buffers; oracle compares find_n with find on the implementation itself.",
+              "Lean 4 proof (induction over the pushed sequence) + differential correspondence"),
+    "C18": _c("Proved: an independent strict reader recovers exactly year, fields, nanoseconds and offset from the rendering for every year in i32 "
+              "and offset in i32 \\ {MIN}; 'Z' iff offset 0; fixed widths. core::fmt padding is modelled (tied by the fmt family). " + _K,
+              "Lean 4 proof (round trip through an independent reader) + differential correspondence"),
+    "C19": _c("The harness (a client of the public API) is built against /repo with no features, `alloc` and `std`; each runs the same deterministic "
+              "corpus restricted to the API available everywhere; the three streams must be identical and the std stream equal to the Lean model's. "
+              "A build failure in any configuration is a violation.",
+              "translation validation across three feature builds"),
+    "C20": _c("Proved on the model with the injectable reader as a parameter: empty → refused, nothing opened; `localtime` → exactly /etc/localtime; "
+              "':' → file lookup, never the description fallback; absolute path as is; relative name under each directory in order up to the first "
+              "readable; decoding error final; description (whitespace-stripped, no extensions) only if nothing was readable; no other path is ever "
+              "opened. " + _K + "resolve family with a recording virtual file system.",
+              "Lean 4 proof + differential correspondence with recording reader"),
 }
 
 NOT_APPLICABLE = {}
 
-NOTES = ("Two genuine defects were repaired in /repo with `fix:` commits (negative leap second in the forward conversion, single-newline footer); "
-         "see known_findings.json and DESIGN.md §2. No source hooks are used.")
+NOTES = ("Genuine defects: F3 (negative leap second in the forward conversion) and F4 (single-newline footer) were repaired in /repo with `fix:` "
+         "commits; F1 (reverse-order rule with a tie) and F2 (overlapping rule periods in the search) are listed in known_findings.json. "
+         "No source hooks are used. Seeded breaking changes written by independent sub-agents are under /verif/seeded; DESIGN.md §12 records which "
+         "check catches which.")
